@@ -92,7 +92,8 @@ def run_case(spec, inputs=None):
         return out
     table, names = contests_of(res, el)
     n = len(names)
-    weights = {nm: int(rng.integers(1, 30)) for nm in names}
+    # keys deliberately NOT in contest order: the model must align the weights with the contests by name
+    weights = {names[j]: int(rng.integers(1, 30)) for j in rng.permutation(n)}
     if rng.random() < 0.3:
         weights = None
     base = float(gen.choice(rng, [0, 0, 3, 17.5]))
